@@ -44,7 +44,10 @@ def partial_eval(t, facts: dict):
         cnd = partial_eval(t[1], facts)
         if cnd[0] == "c" and isinstance(cnd[1], bool):
             return partial_eval(t[2] if cnd[1] else t[3], facts)
-        return (tag, cnd, partial_eval(t[2], facts), partial_eval(t[3], facts))
+        a_, b_ = partial_eval(t[2], facts), partial_eval(t[3], facts)
+        if a_ == b_:
+            return a_
+        return (tag, cnd, a_, b_)
     if tag == "bool":
         vals = [partial_eval(x, facts) for x in t[2]]
         known = [v[1] for v in vals if v[0] == "c" and isinstance(v[1], bool)]
@@ -194,10 +197,10 @@ def check(ctx):
     lp_arg = kw(rtf, "log_pdet", 3) if rtf is not None and rtf[0] == "call" else None
     supplied = {("cmp", "is", n("rank"), c(None)): False,
                 ("cmp", "is not", n("rank"), c(None)): True}
-    for label, facts in (("log_pdet not supplied", {**supplied, ("cmp", "is", n("log_pdet"),
-                                                                 c(None)): True}),
-                         ("log_pdet supplied", {**supplied, ("cmp", "is", n("log_pdet"),
-                                                             c(None)): False})):
+    lpn = ("cmp", "is", n("log_pdet"), c(None))
+    lpnn = ("cmp", "is not", n("log_pdet"), c(None))
+    for label, facts in (("log_pdet not supplied", {**supplied, lpn: True, lpnn: False}),
+                         ("log_pdet supplied", {**supplied, lpn: False, lpnn: True})):
         red = partial_eval(rank_arg, facts) if rank_arg is not None else None
         ctx.ob("C13.R1", fp, f"from_penalty passes a SUPPLIED rank on unchanged ({label})",
                red == n("rank"), detail=f"rank argument reduces to {short(red or ())}",
